@@ -382,6 +382,15 @@ impl SseDecoder {
         }
 
         match serde_json::from_str::<Value>(&raw) {
+            Ok(value) if rip_kernel::json_nesting(&value) > rip_kernel::MAX_PAYLOAD_NESTING => {
+                // A frame around this payload could not be read back from the log; keep it as text.
+                let err = format!(
+                    "payload nests {} levels deep (at most {} can be stored in a frame)",
+                    rip_kernel::json_nesting(&value),
+                    rip_kernel::MAX_PAYLOAD_NESTING
+                );
+                ParsedEvent::invalid_json(raw, err, self.current_event.clone())
+            }
             Ok(value) => {
                 ParsedEvent::event(raw, self.current_event.clone(), value, self.validation)
             }
@@ -417,6 +426,24 @@ data: {\"type\":\"response.output_item.added\",\"sequence_number\":1,\"output_in
         let events = decoder.push("data: [DONE]\n\n");
         assert_eq!(events.len(), 1);
         assert_eq!(events[0].kind, ParsedEventKind::Done);
+    }
+
+    #[test]
+    fn payload_too_deep_for_a_frame_is_kept_as_text() {
+        let deep = format!("{}{}", "[".repeat(126), "]".repeat(126));
+        let mut decoder = SseDecoder::new();
+        let events = decoder.push(&format!("data: {deep}\n\n"));
+        assert_eq!(events.len(), 1);
+        assert_eq!(events[0].kind, ParsedEventKind::InvalidJson);
+        assert_eq!(events[0].raw, deep);
+        let mut mapper = EventFrameMapper::new("s1");
+        let frames = mapper.map(&events[0]);
+        let line = serde_json::to_string(&frames[0]).expect("line");
+        assert!(serde_json::from_str::<Event>(&line).is_ok());
+
+        let storable = format!("{}{}", "[".repeat(125), "]".repeat(125));
+        let events = decoder.push(&format!("data: {storable}\n\n"));
+        assert_eq!(events[0].kind, ParsedEventKind::Event);
     }
 
     #[test]
